@@ -4,8 +4,8 @@ import Sismic.Proofs.EquivSelect
 -/
 namespace Sismic
 
-def Micro.rename (ρ : Name → Name) (m : Micro) : Micro :=
-  { m with transition := m.transition.map (Trans.rename ρ), entered := m.entered.map ρ, exited := m.exited.map ρ }
+def Micro.rename (ρ : Name → Name) (ι : Nat → Nat) (m : Micro) : Micro :=
+  { m with transition := m.transition.map (Trans.relabel ρ ι), entered := m.entered.map ρ, exited := m.exited.map ρ }
 
 theorem pairs_map {α β : Type} (f : α → β) : ∀ l : List α, pairs (l.map f) = (pairs l).map (fun p => (f p.1, f p.2))
   | [] => rfl
@@ -23,7 +23,7 @@ theorem mem_pairs {α : Type} : ∀ (l : List α) (p : α × α), p ∈ pairs l 
       simp [this.1, this.2]
 
 section
-variable {S : Name → Prop} {ρ : Name → Name} (hρ : RenOK S ρ)
+variable {S : Name → Prop} {ρ : Name → Name} {ι : Nat → Nat} (hρ : RenOK S ρ)
 include hρ
 
 theorem RenOK.beq_opt (x : Name) (l : Option Name) (hx : S x) (hl : ∀ y, l = some y → S y) :
@@ -45,10 +45,10 @@ theorem lastBeforeGo_rename (l : Option Name) (hl : ∀ y, l = some y → S y) :
     · rfl
     · exact lastBeforeGo_rename l hl x xs (fun y hy => h y (by simp [hy]))
 
-theorem lastBefore_rename (c : Chart) (hc : NamesIn S c) (s : Name) (hs : S s) (l : Option Name)
+theorem lastBefore_rename (c : Chart) (hc : NamesIn S c) {c' : Chart} (hr : IsRen ρ ι c c') (s : Name) (hs : S s) (l : Option Name)
     (hl : ∀ y, l = some y → S y) :
-    lastBefore (c.mapNames ρ) (ρ s) (l.map ρ) = ρ (lastBefore c s l) := by
-  simp only [lastBefore, ancestors_mapNames hρ c hc s hs]
+    lastBefore c' (ρ s) (l.map ρ) = ρ (lastBefore c s l) := by
+  simp only [lastBefore, ancestors_mapNames hρ c hc hr s hs]
   exact lastBeforeGo_rename hρ l hl s _ (fun x hx => hc.ancestors_in s x hx)
 
 end
@@ -76,64 +76,64 @@ theorem NamesIn.lca_in {c : Chart} (hc : NamesIn S c) (a b y : Name) (h : c.lca 
 end
 
 section
-variable {S : Name → Prop} {ρ : Name → Name} (hρ : RenOK S ρ)
+variable {S : Name → Prop} {ρ : Name → Name} {ι : Nat → Nat} (hρ : RenOK S ρ)
 include hρ
 
-theorem nonDetPair_rename (c : Chart) (hc : NamesIn S c) (a b : Trans) (ha : S a.source) (hb : S b.source) :
-    nonDetPair (c.mapNames ρ) (a.rename ρ) (b.rename ρ) = nonDetPair c a b := by
-  simp only [nonDetPair, Trans.rename, hρ.beq _ _ ha hb, lca_mapNames hρ c hc _ _ ha hb]
+theorem nonDetPair_rename (c : Chart) (hc : NamesIn S c) {c' : Chart} (hr : IsRen ρ ι c c') (a b : Trans) (ha : S a.source) (hb : S b.source) :
+    nonDetPair c' (a.relabel ρ ι) (b.relabel ρ ι) = nonDetPair c a b := by
+  simp only [nonDetPair, Trans.relabel, hρ.beq _ _ ha hb, lca_mapNames hρ c hc hr _ _ ha hb]
   cases h : c.lca a.source b.source with
   | none => rfl
-  | some l => simp only [Option.map_some, kindOf_mapNames hρ c hc l (hc.lca_in _ _ l h)]
+  | some l => simp only [Option.map_some, kindOf_mapNames hρ c hc hr l (hc.lca_in _ _ l h)]
 
-theorem leavesRegion_rename (c : Chart) (hc : NamesIn S c) (l : Option Name) (hl : ∀ y, l = some y → S y)
+theorem leavesRegion_rename (c : Chart) (hc : NamesIn S c) {c' : Chart} (hr : IsRen ρ ι c c') (l : Option Name) (hl : ∀ y, l = some y → S y)
     (t : Trans) (hs : S t.source) (ht : ∀ g, t.target = some g → S g) :
-    leavesRegion (c.mapNames ρ) (l.map ρ) (t.rename ρ) = leavesRegion c l t := by
-  simp only [leavesRegion, Trans.rename]
+    leavesRegion c' (l.map ρ) (t.relabel ρ ι) = leavesRegion c l t := by
+  simp only [leavesRegion, Trans.relabel]
   cases hg : t.target with
   | none => rfl
   | some tg =>
-    simp only [Option.map_some, lastBefore_rename hρ c hc t.source hs l hl]
+    simp only [Option.map_some, lastBefore_rename hρ c hc hr t.source hs l hl]
     have hlb : S (lastBefore c t.source l) := hc.lastBefore_in _ hs l
-    rw [descendants_mapNames hρ c hc _ hlb, ← List.map_cons,
+    rw [descendants_mapNames hρ c hc hr _ hlb, ← List.map_cons,
       hρ.contains _ tg (by
         intro y hy
         rcases List.mem_cons.1 hy with e | h
         · subst e; exact hlb
         · exact hc.descendants_in _ y h) (ht tg hg)]
 
-theorem conflictPair_rename (c : Chart) (hc : NamesIn S c) (a b : Trans) (ha : S a.source) (hb : S b.source)
+theorem conflictPair_rename (c : Chart) (hc : NamesIn S c) {c' : Chart} (hr : IsRen ρ ι c c') (a b : Trans) (ha : S a.source) (hb : S b.source)
     (hat : ∀ g, a.target = some g → S g) (hbt : ∀ g, b.target = some g → S g) :
-    conflictPair (c.mapNames ρ) (a.rename ρ) (b.rename ρ) = conflictPair c a b := by
+    conflictPair c' (a.relabel ρ ι) (b.relabel ρ ι) = conflictPair c a b := by
   simp only [conflictPair]
-  have e : (c.mapNames ρ).lca (a.rename ρ).source (b.rename ρ).source = (c.lca a.source b.source).map ρ :=
-    lca_mapNames hρ c hc _ _ ha hb
+  have e : c'.lca (a.relabel ρ ι).source (b.relabel ρ ι).source = (c.lca a.source b.source).map ρ :=
+    lca_mapNames hρ c hc hr _ _ ha hb
   have hl : ∀ y, c.lca a.source b.source = some y → S y := fun y h => hc.lca_in _ _ y h
-  rw [e, leavesRegion_rename hρ c hc _ hl a ha hat, leavesRegion_rename hρ c hc _ hl b hb hbt]
+  rw [e, leavesRegion_rename hρ c hc hr _ hl a ha hat, leavesRegion_rename hρ c hc hr _ hl b hb hbt]
 
-theorem leTrans_rename (c : Chart) (hc : NamesIn S c) (a b : Trans) (ha : S a.source) (hb : S b.source) :
-    leTrans (c.mapNames ρ) (a.rename ρ) (b.rename ρ) = leTrans c a b :=
-  leRevDepthName_mapNames hρ c hc _ _ ha hb
+theorem leTrans_rename (c : Chart) (hc : NamesIn S c) {c' : Chart} (hr : IsRen ρ ι c c') (a b : Trans) (ha : S a.source) (hb : S b.source) :
+    leTrans c' (a.relabel ρ ι) (b.relabel ρ ι) = leTrans c a b :=
+  leRevDepthName_mapNames hρ c hc hr _ _ ha hb
 
 /-- **`_sort_transitions` commutes with the renaming**: the same error, or the substituted order. -/
-theorem sortTransitions_rename (c : Chart) (hc : NamesIn S c) (ts : List Trans) (hts : ∀ t ∈ ts, t ∈ c.transitions) :
-    sortTransitions (c.mapNames ρ) (ts.map (Trans.rename ρ)) =
-      (sortTransitions c ts).map (List.map (Trans.rename ρ)) := by
+theorem sortTransitions_rename (c : Chart) (hc : NamesIn S c) {c' : Chart} (hr : IsRen ρ ι c c') (ts : List Trans) (hts : ∀ t ∈ ts, t ∈ c.transitions) :
+    sortTransitions c' (ts.map (Trans.relabel ρ ι)) =
+      (sortTransitions c ts).map (List.map (Trans.relabel ρ ι)) := by
   have hs : ∀ t ∈ ts, S t.source := fun t h => hc.transS t (hts t h)
   have ht : ∀ t ∈ ts, ∀ g, t.target = some g → S g := fun t h => hc.transT t (hts t h)
   simp only [sortTransitions, List.length_map, pairs_map]
-  have e1 : ((pairs ts).map (fun p => (Trans.rename ρ p.1, Trans.rename ρ p.2))).any
-      (fun p => nonDetPair (c.mapNames ρ) p.1 p.2) = (pairs ts).any (fun p => nonDetPair c p.1 p.2) := by
+  have e1 : ((pairs ts).map (fun p => (Trans.relabel ρ ι p.1, Trans.relabel ρ ι p.2))).any
+      (fun p => nonDetPair c' p.1 p.2) = (pairs ts).any (fun p => nonDetPair c p.1 p.2) := by
     apply any_map_comm
     intro p hp
     have := mem_pairs ts p hp
-    exact nonDetPair_rename hρ c hc p.1 p.2 (hs _ this.1) (hs _ this.2)
-  have e2 : ((pairs ts).map (fun p => (Trans.rename ρ p.1, Trans.rename ρ p.2))).any
-      (fun p => conflictPair (c.mapNames ρ) p.1 p.2) = (pairs ts).any (fun p => conflictPair c p.1 p.2) := by
+    exact nonDetPair_rename hρ c hc hr p.1 p.2 (hs _ this.1) (hs _ this.2)
+  have e2 : ((pairs ts).map (fun p => (Trans.relabel ρ ι p.1, Trans.relabel ρ ι p.2))).any
+      (fun p => conflictPair c' p.1 p.2) = (pairs ts).any (fun p => conflictPair c p.1 p.2) := by
     apply any_map_comm
     intro p hp
     have := mem_pairs ts p hp
-    exact conflictPair_rename hρ c hc p.1 p.2 (hs _ this.1) (hs _ this.2) (ht _ this.1) (ht _ this.2)
+    exact conflictPair_rename hρ c hc hr p.1 p.2 (hs _ this.1) (hs _ this.2) (ht _ this.1) (ht _ this.2)
   rw [e1, e2]
   split
   · rfl
@@ -142,31 +142,31 @@ theorem sortTransitions_rename (c : Chart) (hc : NamesIn S c) (ts : List Trans) 
     · split
       · rfl
       · simp only [Except.map]
-        rw [isort_map (Trans.rename ρ) (leTrans c) (leTrans (c.mapNames ρ)) ts
-          (fun x hx y hy => leTrans_rename hρ c hc x y (hs x hx) (hs y hy))]
+        rw [isort_map (Trans.relabel ρ ι) (leTrans c) (leTrans c') ts
+          (fun x hx y hy => leTrans_rename hρ c hc hr x y (hs x hx) (hs y hy))]
 
 /-- **`_create_steps` commutes with the renaming.** -/
-theorem createStep_rename (c : Chart) (hc : NamesIn S c) (cfg : List Name) (hcfg : ∀ x ∈ cfg, S x)
+theorem createStep_rename (c : Chart) (hc : NamesIn S c) {c' : Chart} (hr : IsRen ρ ι c c') (cfg : List Name) (hcfg : ∀ x ∈ cfg, S x)
     (ev : Option Event) (t : Trans) (ht : t ∈ c.transitions) :
-    createStep (c.mapNames ρ) (cfg.map ρ) ev (t.rename ρ) = (createStep c cfg ev t).rename ρ := by
+    createStep c' (cfg.map ρ) ev (t.relabel ρ ι) = (createStep c cfg ev t).rename ρ ι := by
   have hs : S t.source := hc.transS t ht
   simp only [createStep]
   cases hg : t.target with
-  | none => simp [Trans.rename, hg, Micro.rename]
+  | none => simp [Trans.relabel, hg, Micro.rename]
   | some tg =>
     have htg : S tg := hc.transT t ht tg hg
-    have e0 : (t.rename ρ).target = some (ρ tg) := by simp [Trans.rename, hg]
+    have e0 : (t.relabel ρ ι).target = some (ρ tg) := by simp [Trans.relabel, hg]
     simp only [e0]
     have hl : ∀ y, c.lca t.source tg = some y → S y := fun y h => hc.lca_in _ _ y h
-    have e1 : (c.mapNames ρ).lca (t.rename ρ).source (ρ tg) = (c.lca t.source tg).map ρ :=
-      lca_mapNames hρ c hc _ _ hs htg
-    have e2 : lastBefore (c.mapNames ρ) (t.rename ρ).source ((c.lca t.source tg).map ρ) =
-        ρ (lastBefore c t.source (c.lca t.source tg)) := lastBefore_rename hρ c hc t.source hs _ hl
+    have e1 : c'.lca (t.relabel ρ ι).source (ρ tg) = (c.lca t.source tg).map ρ :=
+      lca_mapNames hρ c hc hr _ _ hs htg
+    have e2 : lastBefore c' (t.relabel ρ ι).source ((c.lca t.source tg).map ρ) =
+        ρ (lastBefore c t.source (c.lca t.source tg)) := lastBefore_rename hρ c hc hr t.source hs _ hl
     have hlb : S (lastBefore c t.source (c.lca t.source tg)) := hc.lastBefore_in _ hs _
     simp only [e1, e2, Micro.rename, Option.map_some, List.map_append, List.map_cons, List.map_nil]
     congr 1
     · -- entered
-      rw [ancestors_mapNames hρ c hc tg htg]
+      rw [ancestors_mapNames hρ c hc hr tg htg]
       have : ∀ l : List Name, (∀ x ∈ l, S x) →
           (l.map ρ).takeWhile (fun x => !(some x == (c.lca t.source tg).map ρ)) =
             (l.takeWhile (fun x => !(some x == c.lca t.source tg))).map ρ := by
@@ -182,22 +182,22 @@ theorem createStep_rename (c : Chart) (hc : NamesIn S c) (cfg : List Name) (hcfg
       simp only [bne]
       rw [this _ (fun x hx => hc.ancestors_in tg x hx), List.map_reverse]
     · -- exited
-      rw [descendants_mapNames hρ c hc _ hlb]
-      rw [isort_map ρ c.leRevDepthName (c.mapNames ρ).leRevDepthName _
-        (fun x hx y hy => leRevDepthName_mapNames hρ c hc x y (hc.descendants_in _ x hx) (hc.descendants_in _ y hy))]
+      rw [descendants_mapNames hρ c hc hr _ hlb]
+      rw [isort_map ρ c.leRevDepthName c'.leRevDepthName _
+        (fun x hx y hy => leRevDepthName_mapNames hρ c hc hr x y (hc.descendants_in _ x hx) (hc.descendants_in _ y hy))]
       rw [filter_map_comm ρ (fun x => cfg.contains x) (fun x => (cfg.map ρ).contains x) _
         (fun x hx => hρ.contains cfg x hcfg (hc.descendants_in _ x ((mem_isort _ _ x).1 hx)))]
       rw [hρ.contains cfg _ hcfg hlb]
       split <;> rfl
 
-theorem createSteps_rename (c : Chart) (hc : NamesIn S c) (cfg : List Name) (hcfg : ∀ x ∈ cfg, S x)
+theorem createSteps_rename (c : Chart) (hc : NamesIn S c) {c' : Chart} (hr : IsRen ρ ι c c') (cfg : List Name) (hcfg : ∀ x ∈ cfg, S x)
     (ev : Option Event) (ts : List Trans) (hts : ∀ t ∈ ts, t ∈ c.transitions) :
-    createSteps (c.mapNames ρ) (cfg.map ρ) ev (ts.map (Trans.rename ρ)) =
-      (createSteps c cfg ev ts).map (Micro.rename ρ) := by
+    createSteps c' (cfg.map ρ) ev (ts.map (Trans.relabel ρ ι)) =
+      (createSteps c cfg ev ts).map (Micro.rename ρ ι) := by
   simp only [createSteps, List.map_map]
   apply List.map_congr_left
   intro t ht
-  exact createStep_rename hρ c hc cfg hcfg ev t (hts t ht)
+  exact createStep_rename hρ c hc hr cfg hcfg ev t (hts t ht)
 
 end
 
@@ -216,7 +216,7 @@ theorem findSome?_map_comm {α β γ δ : Type} (g : α → β) (h : γ → δ) 
     | some v => rfl
 
 section
-variable {S : Name → Prop} {ρ : Name → Name} (hρ : RenOK S ρ)
+variable {S : Name → Prop} {ρ : Name → Name} {ι : Nat → Nat} (hρ : RenOK S ρ)
 include hρ
 
 theorem leName_rename (a b : Name) (ha : S a) (hb : S b) : leName (ρ a) (ρ b) = leName a b := by
@@ -248,19 +248,19 @@ theorem memory_find_rename (leaf : Name) (hleaf : S leaf) : ∀ (m : List (Name 
     · rfl
     · exact memory_find_rename leaf hleaf ys (fun z hz => h z (by simp [hz]))
 
-theorem leafStep_rename (c : Chart) (hc : NamesIn S c) (memory : List (Name × List Name))
+theorem leafStep_rename (c : Chart) (hc : NamesIn S c) {c' : Chart} (hr : IsRen ρ ι c c') (memory : List (Name × List Name))
     (hmk : ∀ p ∈ memory, S p.1) (hmv : ∀ p ∈ memory, ∀ x ∈ p.2, S x) (leaf : Name) (hleaf : S leaf) :
-    leafStep (c.mapNames ρ) (renameMemory ρ memory) (ρ leaf) = (leafStep c memory leaf).map (Micro.rename ρ) := by
-  simp only [leafStep, stateFor_mapNames hρ c hc leaf hleaf]
+    leafStep c' (renameMemory ρ memory) (ρ leaf) = (leafStep c memory leaf).map (Micro.rename ρ ι) := by
+  simp only [leafStep, stateFor_mapNames hρ c hc hr leaf hleaf]
   cases hs : c.stateFor leaf with
   | none => rfl
   | some s =>
     have hsm : s ∈ c.states := List.mem_of_find?_eq_some hs
     simp only [Option.map_some]
     have hk : (StateDef.rename ρ s).kind = s.kind := rfl
-    have hroot : (c.mapNames ρ).root = c.root.map ρ := root_mapNames c
-    have hpr : ((c.mapNames ρ).parentFor (ρ leaf) == (c.mapNames ρ).root) = (c.parentFor leaf == c.root) := by
-      rw [parentFor_mapNames hρ c hc leaf hleaf, hroot]
+    have hroot : c'.root = c.root.map ρ := root_mapNames c hr
+    have hpr : (c'.parentFor (ρ leaf) == c'.root) = (c.parentFor leaf == c.root) := by
+      rw [parentFor_mapNames hρ c hc hr leaf hleaf, hroot]
       exact hρ.opt_beq _ _ (fun y h => hc.parentFor_in leaf y h) (fun y h => hc.root_in y h)
     rw [hk, hpr]
     by_cases h1 : (s.kind == .final && c.parentFor leaf == c.root) = true
@@ -276,23 +276,23 @@ theorem leafStep_rename (c : Chart) (hc : NamesIn S c) (memory : List (Name × L
           have : (StateDef.rename ρ s).memory = s.memory.map ρ := by simp [StateDef.rename, h2]
           rw [this]
           have e : (s.memory.map ρ).toList = s.memory.toList.map ρ := by cases s.memory <;> rfl
-          rw [e, isort_map ρ c.leDepthName (c.mapNames ρ).leDepthName _ (fun x hx y hy => by
+          rw [e, isort_map ρ c.leDepthName c'.leDepthName _ (fun x hx y hy => by
             have hx' : S x := hc.memory s hsm x (by cases hm : s.memory with
               | none => simp [hm] at hx
               | some m => simp [hm] at hx; rw [hx])
             have hy' : S y := hc.memory s hsm y (by cases hm : s.memory with
               | none => simp [hm] at hy
               | some m => simp [hm] at hy; rw [hy])
-            exact leDepthName_mapNames hρ c hc x y hx' hy')]
+            exact leDepthName_mapNames hρ c hc hr x y hx' hy')]
           simp [Micro.rename]
         | some p =>
           have hp := List.mem_of_find?_eq_some hf
           simp only [Option.map_some]
-          rw [isort_map ρ c.leDepthName (c.mapNames ρ).leDepthName _ (fun x hx y hy =>
-            leDepthName_mapNames hρ c hc x y (hmv p hp x hx) (hmv p hp y hy))]
+          rw [isort_map ρ c.leDepthName c'.leDepthName _ (fun x hx y hy =>
+            leDepthName_mapNames hρ c hc hr x y (hmv p hp x hx) (hmv p hp y hy))]
           simp [Micro.rename]
       · simp only [h2, if_false, Bool.false_eq_true]
-        rw [childrenFor_mapNames hρ c hc leaf hleaf]
+        rw [childrenFor_mapNames hρ c hc hr leaf hleaf]
         by_cases h3 : (s.kind == .orthogonal && !(c.childrenFor leaf).isEmpty) = true
         · have h3' : (s.kind == .orthogonal && !((c.childrenFor leaf).map ρ).isEmpty) = true := by
             simpa using h3
@@ -311,10 +311,10 @@ theorem leafStep_rename (c : Chart) (hc : NamesIn S c) (memory : List (Name × L
             | some i => simp [h4, Micro.rename]
           · simp [h4]
 
-theorem completeStep_rename (c : Chart) (hc : NamesIn S c) (cfg : List Name) (hcfg : ∀ x ∈ cfg, S x)
+theorem completeStep_rename (c : Chart) (hc : NamesIn S c) {c' : Chart} (hr : IsRen ρ ι c c') (cfg : List Name) (hcfg : ∀ x ∈ cfg, S x)
     (n : Name) (hn : S n) :
-    completeStep (c.mapNames ρ) (cfg.map ρ) (ρ n) = (completeStep c cfg n).map (Micro.rename ρ) := by
-  simp only [completeStep, kindOf_mapNames hρ c hc n hn, childrenFor_mapNames hρ c hc n hn]
+    completeStep c' (cfg.map ρ) (ρ n) = (completeStep c cfg n).map (Micro.rename ρ ι) := by
+  simp only [completeStep, kindOf_mapNames hρ c hc hr n hn, childrenFor_mapNames hρ c hc hr n hn]
   split
   · rw [filter_map_comm ρ (fun x => !cfg.contains x) (fun x => !(cfg.map ρ).contains x) _
       (fun x hx => by simp only [hρ.contains cfg x hcfg (hc.childrenFor_in n x hx)])]
@@ -332,25 +332,25 @@ theorem leafFor_sub (c : Chart) (names : List Name) : ∀ x ∈ c.leafFor names,
   exact (List.mem_filter.1 hx).1
 
 /-- **`_create_stabilization_step` commutes with the renaming.** -/
-theorem stabilizationStep_rename (c : Chart) (hc : NamesIn S c) (memory : List (Name × List Name))
+theorem stabilizationStep_rename (c : Chart) (hc : NamesIn S c) {c' : Chart} (hr : IsRen ρ ι c c') (memory : List (Name × List Name))
     (hmk : ∀ p ∈ memory, S p.1) (hmv : ∀ p ∈ memory, ∀ x ∈ p.2, S x) (cfg : List Name) (hcfg : ∀ x ∈ cfg, S x) :
-    stabilizationStep (c.mapNames ρ) (renameMemory ρ memory) (cfg.map ρ) =
-      (stabilizationStep c memory cfg).map (Micro.rename ρ) := by
+    stabilizationStep c' (renameMemory ρ memory) (cfg.map ρ) =
+      (stabilizationStep c memory cfg).map (Micro.rename ρ ι) := by
   simp only [stabilizationStep]
   have hleaf : ∀ x ∈ c.leafFor cfg, S x := fun x hx => hcfg x (leafFor_sub c cfg x hx)
-  rw [leafFor_mapNames hρ c hc cfg hcfg,
-    isort_map ρ c.leRevDepthName (c.mapNames ρ).leRevDepthName _
-      (fun x hx y hy => leRevDepthName_mapNames hρ c hc x y (hleaf x hx) (hleaf y hy)),
-    findSome?_map_comm ρ (Micro.rename ρ) (leafStep c memory) _ _
-      (fun x hx => leafStep_rename hρ c hc memory hmk hmv x (hleaf x ((mem_isort _ _ x).1 hx)))]
+  rw [leafFor_mapNames hρ c hc hr cfg hcfg,
+    isort_map ρ c.leRevDepthName c'.leRevDepthName _
+      (fun x hx y hy => leRevDepthName_mapNames hρ c hc hr x y (hleaf x hx) (hleaf y hy)),
+    findSome?_map_comm ρ (Micro.rename ρ ι) (leafStep c memory) _ _
+      (fun x hx => leafStep_rename hρ c hc hr memory hmk hmv x (hleaf x ((mem_isort _ _ x).1 hx)))]
   cases (isort c.leRevDepthName (c.leafFor cfg)).findSome? (leafStep c memory) with
   | some m => rfl
   | none =>
     simp only [Option.map_none]
-    rw [isort_map ρ c.leDepthName (c.mapNames ρ).leDepthName _
-        (fun x hx y hy => leDepthName_mapNames hρ c hc x y (hcfg x hx) (hcfg y hy)),
-      findSome?_map_comm ρ (Micro.rename ρ) (completeStep c cfg) _ _
-        (fun x hx => completeStep_rename hρ c hc cfg hcfg x (hcfg x ((mem_isort _ _ x).1 hx)))]
+    rw [isort_map ρ c.leDepthName c'.leDepthName _
+        (fun x hx y hy => leDepthName_mapNames hρ c hc hr x y (hcfg x hx) (hcfg y hy)),
+      findSome?_map_comm ρ (Micro.rename ρ ι) (completeStep c cfg) _ _
+        (fun x hx => completeStep_rename hρ c hc hr cfg hcfg x (hcfg x ((mem_isort _ _ x).1 hx)))]
 
 end
 
